@@ -182,7 +182,8 @@ type ftr struct {
 	recvName  string
 	recvObj   types.Object // the receiver variable (nil for plain functions)
 	allowMut  bool
-	now       bool // reads the wall clock: extra parameter now : Z
+	now       bool                          // reads the wall clock: extra parameter now : Z
+	closures  map[types.Object]*ast.FuncLit // local result-less closures, inlined at their call statements
 }
 
 func (t *ftr) bad(n ast.Node, format string, a ...any) {
@@ -804,6 +805,15 @@ func (t *ftr) expr(e ast.Expr) string {
 		if v, ok := obj.(*types.Var); ok && isErrorType(v.Type()) {
 			return "true" // a package-level error value: non-nil
 		}
+		if fn, ok := obj.(*types.Func); ok && fn.Pkg() == t.pi.pkg {
+			// a function of the package handed on as a value (a callback argument): its translation
+			if sig, ok := fn.Type().(*types.Signature); ok && sig.Recv() == nil {
+				if needsFuel(t.pi, t.dir, fn.Name()) || needsNow(t.pi, t.dir, fn.Name()) {
+					t.bad(e, "function %s used as a value needs an iteration budget or the clock", e.Name)
+				}
+				return ensureFunc(t.pi, t.dir, fn.Name(), e)
+			}
+		}
 		t.bad(e, "identifier %s is not a local variable or constant", e.Name)
 	case *ast.UnaryExpr:
 		if e.Op == token.AND {
@@ -866,6 +876,7 @@ func (t *ftr) expr(e ast.Expr) string {
 		}
 		return "(go_slice " + x + " " + t.toZ(e.Low) + " " + t.toZ(e.High) + ")"
 	case *ast.SelectorExpr:
+		e = t.desugarPromoted(e)
 		// struct field
 		if sel := namedOf(t.typeOf(e.X)); sel != nil {
 			if _, ok := sel.Underlying().(*types.Struct); ok && structPkgOK(sel.Obj().Pkg()) {
@@ -1591,6 +1602,7 @@ func (t *ftr) lvalUpdate(lhs ast.Expr, val string) string {
 	case *ast.StarExpr:
 		return t.lvalUpdate(l.X, val)
 	case *ast.SelectorExpr:
+		l = t.desugarPromoted(l)
 		n := namedOf(t.typeOf(l.X))
 		if n != nil {
 			if st, ok := n.Underlying().(*types.Struct); ok && structPkgOK(n.Obj().Pkg()) {
@@ -1805,6 +1817,50 @@ func (t *ftr) block(list []ast.Stmt, k func() string) string {
 	case *ast.TypeSwitchStmt:
 		return t.typeSwitch(s, restK)
 	case *ast.AssignStmt:
+		if s.Tok == token.DEFINE && len(s.Lhs) == 1 && len(s.Rhs) == 1 {
+			if fl, ok := s.Rhs[0].(*ast.FuncLit); ok {
+				// name := func(params) { … }: a local closure without results that is only ever called as a
+				// statement; it is inlined at each call (it may assign captured variables)
+				id, isId := s.Lhs[0].(*ast.Ident)
+				if !isId || fl.Type.Results != nil && len(fl.Type.Results.List) > 0 {
+					t.bad(s, "closure with results (only result-less local closures called as statements are inlined)")
+				}
+				ast.Inspect(fl.Body, func(n ast.Node) bool {
+					switch n.(type) {
+					case *ast.ReturnStmt, *ast.FuncLit, *ast.DeferStmt, *ast.GoStmt:
+						t.bad(n, "closure body with return / nested closure / defer / go")
+					}
+					return true
+				})
+				obj := t.objOf(id)
+				// every use must be the callee of a call statement
+				uses, calls := 0, 0
+				for uid, uo := range t.pi.info.Uses {
+					if uo == obj {
+						uses++
+						_ = uid
+					}
+				}
+				ast.Inspect(t.pi.findFunc(t.fn).Body, func(n ast.Node) bool {
+					if es, ok := n.(*ast.ExprStmt); ok {
+						if c, ok := es.X.(*ast.CallExpr); ok {
+							if cid, ok := c.Fun.(*ast.Ident); ok && t.pi.info.Uses[cid] == obj {
+								calls++
+							}
+						}
+					}
+					return true
+				})
+				if uses != calls {
+					t.bad(s, "closure %s is used other than as the callee of a call statement", id.Name)
+				}
+				if t.closures == nil {
+					t.closures = map[types.Object]*ast.FuncLit{}
+				}
+				t.closures[obj] = fl
+				return restK()
+			}
+		}
 		if s.Tok == token.ASSIGN || s.Tok == token.DEFINE {
 			if len(s.Lhs) == len(s.Rhs) {
 				if c, ok := s.Rhs[0].(*ast.CallExpr); ok && len(s.Lhs) == 1 {
@@ -1973,6 +2029,51 @@ func (t *ftr) block(list []ast.Stmt, k func() string) string {
 		t.bad(s, "defer statement (only a deferred sync.Mutex / RWMutex unlock is accepted, as a no-op)")
 	case *ast.ExprStmt:
 		if c, ok := s.X.(*ast.CallExpr); ok {
+			if cid, ok := c.Fun.(*ast.Ident); ok && t.closures != nil {
+				if fl, ok := t.closures[t.objOf(cid)]; ok {
+					// inline: bind the parameters to the arguments (evaluated first, left to right), run the body
+					type pb struct {
+						obj types.Object
+						k   tkind
+						val string
+					}
+					var binds []pb
+					i := 0
+					for _, f := range fl.Type.Params.List {
+						for _, n := range f.Names {
+							if i >= len(c.Args) {
+								t.bad(s, "closure call arity")
+							}
+							po := t.pi.info.Defs[n]
+							pk, ok := kindOfType(po.Type())
+							if !ok {
+								t.bad(s, "closure parameter %s has unsupported type %s", n.Name, po.Type())
+							}
+							binds = append(binds, pb{po, pk, t.exprAs(c.Args[i], pk)})
+							i++
+						}
+					}
+					if i != len(c.Args) {
+						t.bad(s, "closure call arity")
+					}
+					pend := t.takePending()
+					var tmps []string
+					for j := range binds {
+						tmps = append(tmps, fmt.Sprintf("(let tmp_c%d := %s in ", j, binds[j].val))
+					}
+					var bindAll func(j int) string
+					bindAll = func(j int) string {
+						if j == len(binds) {
+							return t.block(fl.Body.List, restK)
+						}
+						if binds[j].obj.Name() == "_" {
+							return bindAll(j + 1)
+						}
+						return t.letIn(t.nameOf(binds[j].obj), binds[j].k.coq(), fmt.Sprintf("tmp_c%d", j), func() string { return bindAll(j + 1) })
+					}
+					return t.wrapPending(pend, strings.Join(tmps, "")+bindAll(0)+strings.Repeat(")", len(tmps)))
+				}
+			}
 			if isMutexCall(t.pi, c) {
 				return restK() // mu.Lock() / mu.Unlock(): no-ops, the translation describes one thread's view
 			}
